@@ -117,10 +117,25 @@ def verify_feature_set(repo, verif, features, use_cache=True, vacuity=True, extr
         return res
     key = hashlib.sha256((text + "|" + " ".join(extra) + "|" + str(vacuity)).encode()).hexdigest()[:24]
     cache = os.path.join(verif, "build", "cache", key + ".json")
+    # serialise concurrent checks that need the same feature set (they share the generated files); the second one hits the cache
+    import fcntl
+    lock = open(os.path.join(out_dir, ".lock%s" % tag), "w")
+    fcntl.flock(lock, fcntl.LOCK_EX)
+    try:
+        return _verify_locked(g, text, res, key, cache, use_cache, vacuity, extra, tag, out_dir, t0)
+    finally:
+        fcntl.flock(lock, fcntl.LOCK_UN)
+        lock.close()
+
+
+def _verify_locked(g, text, res, key, cache, use_cache, vacuity, extra, tag, out_dir, t0):
     if use_cache and os.path.exists(cache):
-        r = json.load(open(cache))
-        r["cached"] = True
-        return r
+        try:
+            r = json.load(open(cache))
+            r["cached"] = True
+            return r
+        except ValueError:
+            pass
     path = os.path.join(out_dir, "rsactor_vx%s.rs" % tag)
     open(path, "w").write(text)
     json.dump(g.report, open(os.path.join(out_dir, "extraction_report.json"), "w"), indent=1)
@@ -186,5 +201,7 @@ def verify_feature_set(repo, verif, features, use_cache=True, vacuity=True, extr
         res["status"] = "ok"
     res["wall"] = time.time() - t0
     os.makedirs(os.path.dirname(cache), exist_ok=True)
-    json.dump(res, open(cache, "w"))
+    tmpc = cache + ".%d.tmp" % os.getpid()
+    json.dump(res, open(tmpc, "w"))
+    os.replace(tmpc, cache)
     return res
